@@ -143,6 +143,11 @@ pub(crate) fn serialize_text<'a, N: Normalizer>(
                 change = true;
                 result.push_str("&gt;")
             }
+            '\r' => {
+                // a literal carriage return would be read back as a line feed
+                change = true;
+                result.push_str("&#13;")
+            }
             '>' if unescaped_gt => {
                 change = true;
                 // take last two characters added to result
@@ -189,6 +194,15 @@ pub(crate) fn serialize_cdata<'a, N: Normalizer>(
                     // we are still at the critical junction
                     closing_square_brackets_seen = 2;
                 }
+            }
+            '\r' => {
+                // a carriage return inside a CDATA section would be read back
+                // as a line feed: write it as a reference outside of it
+                for _ in 0..closing_square_brackets_seen {
+                    result.push(']');
+                }
+                closing_square_brackets_seen = 0;
+                result.push_str("]]>&#13;<![CDATA[");
             }
             '>' => {
                 if closing_square_brackets_seen == 2 {
@@ -245,6 +259,20 @@ pub(crate) fn serialize_attribute<'a, N: Normalizer>(
             '"' => {
                 change = true;
                 result.push_str("&quot;")
+            }
+            // literal white space other than a space would be read back as a
+            // space (attribute-value normalization)
+            '\t' => {
+                change = true;
+                result.push_str("&#9;")
+            }
+            '\n' => {
+                change = true;
+                result.push_str("&#10;")
+            }
+            '\r' => {
+                change = true;
+                result.push_str("&#13;")
             }
             _ => result.push(c),
         }
